@@ -299,3 +299,83 @@ def chain_take():
         print('REPLAY: VIOLATION-CONFIRMED take() of a chained sequence does not return item indices[k] at position k')
     else:
         print('REPLAY: not reproduced (%d cases)' % cases)
+
+
+# ------------------------------------------------------------------ StructuredTransforms (contracts/c11_struct.py) --
+
+def _structured(dims, vals, nrefine):
+    """real StructuredTransforms from per-axis (i, j, mod); boundary axes are IntAxis (ibound = axis number, side False)"""
+    from nutils import transformseq, transform
+    axes = []
+    for k, (d, (i, j, mod)) in enumerate(zip(dims, vals)):
+        axes.append(transformseq.DimAxis(i, j, mod, False) if d else transformseq.IntAxis(i, j, mod, k, False))
+    return transformseq.StructuredTransforms(transform.Index(len(dims), 0), tuple(axes), nrefine)
+
+
+def _user_tails(seq, taillen):
+    """user tails: chains of child transforms of the element reference (line**fromdims), all of them for short tails"""
+    from nutils import element
+    if taillen == 0:
+        return [()]
+    ref = element.LineReference()**seq.fromdims if seq.fromdims else element.PointReference()
+    ct = list(ref.child_transforms)
+    return [tuple(c) for c in itertools.product(ct, repeat=taillen)][:16]
+
+
+def _roundtrip_fails(seq, i, tail):
+    try:
+        x = seq[i]
+        k, t = seq.index_with_tail(x + tail)
+    except Exception as e:
+        return 'self[%d] / index_with_tail raised %s: %s' % (i, type(e).__name__, e)
+    if k != i:
+        return 'index_with_tail(self[%d] + tail) returned index %d' % (i, k)
+    if t != tail and not (len(t) == len(tail) and same_map(t, tail)):
+        return 'index_with_tail(self[%d] + tail) returned the tail %r for %r' % (i, t, tail)
+    return None
+
+
+def structured_roundtrip(dims, nrefine, taillen, model=None, budget=4000):
+    """replay of a StructuredLookup counter-model (axis values + digits); if the model cannot be mapped to a failing input,
+    search a small family of structured sequences of the same configuration."""
+    dims = [bool(d) for d in dims]
+    model = model or {}
+
+    def num(k, default=None):
+        try:
+            return int(str(model[k]).replace('(', '').replace(')', '').replace(' ', ''))
+        except Exception:
+            return default
+    vals = [(num('axis%d.i' % k), num('axis%d.j' % k), num('axis%d.mod' % k)) for k in range(len(dims))]
+    digits = [num('digit%d' % k) for k in range(len(dims))]
+    tried = 0
+    if all(v is not None for t in vals for v in t) and all(d is not None for d in digits):
+        lens = [j - i for i, j, m in vals]
+        if all(0 < n <= 40 for n in lens) and all(0 <= d < n for d, n in zip(digits, lens)) and all(m == 0 or (m >= n) for (i, j, m), n in zip(vals, lens)):
+            seq = _structured(dims, vals, nrefine)
+            i = 0
+            for d, n in zip(digits, lens):
+                i = i * n + d
+            for tail in _user_tails(seq, taillen):
+                tried += 1
+                msg = _roundtrip_fails(seq, i, tail)
+                if msg:
+                    print('StructuredTransforms axes=%r nrefine=%d: %s' % (vals, nrefine, msg))
+                    print('REPLAY: VIOLATION-CONFIRMED lookup is not the inverse of element access (counter-model replayed)')
+                    return False
+    # search: the abstract model (uninterpreted Axis.map/unmap, child table) need not map to a failing input
+    choices = [(0, 1, 0), (0, 2, 0), (1, 3, 0), (0, 3, 0), (2, 5, 0), (0, 2, 2), (0, 3, 3), (1, 3, 4), (2, 4, 6), (3, 6, 6), (-1, 2, 3)]
+    for vals in itertools.product(choices, repeat=len(dims)):
+        seq = _structured(dims, vals, nrefine)
+        for tail in _user_tails(seq, taillen)[:4]:
+            for i in range(len(seq)):
+                tried += 1
+                msg = _roundtrip_fails(seq, i, tail)
+                if msg:
+                    print('StructuredTransforms axes=%r nrefine=%d: %s' % (list(vals), nrefine, msg))
+                    print('REPLAY: VIOLATION-CONFIRMED lookup is not the inverse of element access (found by searching a small family of structured sequences; the counter-model is abstract)')
+                    return False
+        if tried > budget:
+            break
+    print('REPLAY: not reproduced (%d structured lookups tried)' % tried)
+    return True
